@@ -20,13 +20,20 @@ CTYPE = None
 
 def build_il(cproc=CPROC):
     """-> linked IL text of stage 2"""
-    parts = []
+    texts = []
     for k, u in enumerate(UNITS):
         pre = subprocess.run(CPP + [os.path.join(REPO, u + '.c')], capture_output=True, text=True)
         if pre.returncode: raise SystemExit('cpp failed on %s: %s' % (u, pre.stderr[:300]))
         c = subprocess.run([cproc] + (['-t', os.environ['SELFHOST_TARGET']] if os.environ.get('SELFHOST_TARGET') else []), input=pre.stdout, capture_output=True, text=True)
         if c.returncode: raise SystemExit('stage 1 rejects its own source %s.c: %s' % (u, c.stderr[:300]))
-        text = c.stdout
+        texts.append(c.stdout)
+    return link(texts)
+
+
+def link(texts):
+    """concatenate the IL of several translation units; file-local symbols and aggregate type names are renamed per unit"""
+    parts = []
+    for k, text in enumerate(texts):
         # which definitions are exported?  `export` precedes `function` / `data` (possibly on its own line)
         exported = set(); local = set()
         lines = text.split('\n'); pend = False
